@@ -2,11 +2,17 @@
 
 package config
 
-import "sort"
+import (
+	"sort"
+
+	"github.com/indexsupply/shovel/verifhook"
+)
 
 // verifOrderIntegrations puts integrations collected from a map (random
 // iteration order) into a canonical order, so that a simulated run is a
-// function of its seed. Simulation builds only.
+// function of its seed, and then lets the simulation harness choose the
+// order from its own decision stream. Simulation builds only.
 func verifOrderIntegrations(igs []Integration) {
 	sort.SliceStable(igs, func(i, j int) bool { return igs[i].Name < igs[j].Name })
+	verifhook.Event("config.integrations.order", len(igs), func(i, j int) { igs[i], igs[j] = igs[j], igs[i] })
 }
